@@ -11,6 +11,8 @@ structure DSt where
 
 def encV : V → String
   | .s x => "s:" ++ encChars x
+  | .t none => "t:-"
+  | .t (some l) => "t:" ++ ",".intercalate (l.map toString)
   | .d kv => "d:(" ++ ",".intercalate ((kv.map fun (k, v) => encChars k ++ "=" ++ encChars v).toArray.qsort (· < ·)).toList ++ ")"
 
 def encD (d : D) : String :=
@@ -61,7 +63,13 @@ def driverStep (d : DSt) (ws : List String) : DSt × String :=
       if !asciiOnly tag || as.any (fun kv => !asciiOnly kv.1 || !asciiOnly kv.2) then ({ d with dead := some (S "non-ascii") }, "unmodelled " ++ enc "non-ascii") else
       apply d { base := baseOps r2 r1, join := fun _ u => u, fix := id, loose := d.loose } (.start tag as)
     | _, _, _, _ => (d, "bad-op")
-  | "stop" :: tag :: joins =>
+  | "stop" :: tag :: joins0 =>
+    -- optional trailing `D:<tuple|->`: what the real `_parse_date` answered for this element's text
+    let dates := joins0.filter (·.startsWith "D:")
+    let joins := joins0.filter fun f => !f.startsWith "D:"
+    let pd : Option (List Int) := match dates with
+      | d0 :: _ => let v := (d0.drop 2).toString; if v == "-" then none else (v.splitOn ",").mapM parseInt
+      | [] => none
     match decChars tag with
     | some tag =>
       let tbl : List (Str × Str) := joins.filterMap fun f =>
@@ -69,7 +77,7 @@ def driverStep (d : DSt) (ws : List String) : DSt × String :=
         | [u, r] => (match decChars u, decChars r with | some u, some r => some (u, r) | _, _ => none)
         | _ => none
       let join (_b u : Str) : Str := match tbl.find? (·.1 == u) with | some p => p.2 | none => S "<oracle-miss>"
-      apply d { base := baseOps "" "", join := join, fix := id, loose := d.loose } (.stop tag)
+      apply d { base := baseOps "" "", join := join, fix := id, loose := d.loose, parseDate := fun _ => pd } (.stop tag)
     | none => (d, "bad-op")
   | ["data", t] =>
     match decChars t with
